@@ -730,7 +730,9 @@ def _b1(chk: Check, consts, label, layouts=(0, 1)):
     # memory: 1.4M edges in thorough; every edge shares the state objects instead of its own parsed
     # copies, the raw TLC output and record list go away, and the heap is frozen before forking so
     # that the workers do not copy it page by page
+    canon = {k: k for k in g.states}
     for e in g.edges:
+        e["_s"], e["_d"] = canon[e["_s"]], canon[e["_d"]]
         e["src"], e["dst"] = g.states[e["_s"]], g.states[e["_d"]]
     del recs, tables
     res.out = ""
